@@ -194,7 +194,7 @@ def build_arg(v):
     if k == "none":
         return None
     if k == "expr":
-        return build_expr(v[1])
+        return build_farg(v[1])  # ValueError for degenerate expressions (zoo / nan)
     if k == "mkey":
         return cirq.MeasurementKey(name=v[1], path=tuple(v[2]))
     if k == "strs":
